@@ -5,6 +5,12 @@
 //   static forms     first<C>(), last<C>(), subspan<O>(), subspan<O,C>() (generated instantiation list)
 // plus element access, iteration, size_bytes, as_bytes, the constructors and conversions,
 // and etl::array as the underlying range.
+// Round 2: chained sub-views compared with the single equivalent one (run-time forms: every
+// (o1,c1,o2,c2); static forms subspan<O1,C1>().subspan<O2,C2>(), subspan<O1>().subspan<O2>(),
+// first<C1>().last<C2>(), last<C1>().first<C2>() for lengths up to chain_max<T>), as_bytes and
+// reverse iteration of every sub-view, default-constructed spans (extent 0 and dynamic),
+// std::array and const etl::array sources with static extent, span assignment.
+// There is no span(first,last) constructor in tetl (API gap, not called).
 // Oracle: pointer arithmetic on the block (data()-base, size()) and the static extent of the
 // result type, cross-checked against std::span (libstdc++).  Every element of every result is
 // read, so a view reaching outside the block is an ASan report (san flavour) -> C02.
@@ -12,6 +18,7 @@
 
 #include <etl/vector.hpp>
 
+#include <array>
 #include <span>
 
 using namespace c19;
@@ -262,6 +269,241 @@ void constructors(Ctx& c, Block<T>& blk)
     }
 }
 
+// round 2: chained sub-views ---------------------------------------------------------------------------
+#ifndef MC_PART
+    #define MC_PART 1
+#endif
+// static chains are generated for lengths 0..chain_max<T>
+#if MC_PART == 1 || defined(MC_FLAVOUR_SAN) || defined(MC_FLAVOUR_O2)
+    #define MC_CHAIN_SMALL 1 // quick part, and the slow-to-compile flavours of the thorough part: int up to 4
+#else
+    #define MC_CHAIN_SMALL 0 // thorough nochk/chk: int up to 5, char and S12 up to 4
+#endif
+template <typename T>
+constexpr std::size_t chain_max = std::is_same_v<T, int> ? (MC_CHAIN_SMALL ? 4 : 5) : (MC_CHAIN_SMALL ? 0 : 4);
+template <typename T>
+constexpr bool chain_type = !MC_CHAIN_SMALL || std::is_same_v<T, int>;
+
+/// non-template reporters: the per-instantiation code only builds the views and describes them
+enum class Chain { sub_sub, sub_tail, tail_tail, first_last, last_first };
+void chain_report(Case& k, Chain kind, std::size_t a1, std::size_t b1, std::size_t a2, std::size_t b2, std::size_t o, std::size_t n, std::size_t ext, Res const& got, Res const& stdres, int same_as_single)
+{
+    char const* subject = "";
+    std::string call;
+    switch (kind) {
+    case Chain::sub_sub:
+        subject = "span::subspan<Offset,Count>() chained";
+        call    = cat("subspan<", a1, ",", b1, ">().subspan<", a2, ",", b2, ">()");
+        break;
+    case Chain::sub_tail:
+        subject = "span::subspan<Offset>() chained";
+        call    = cat("subspan<", a1, ",", b1, ">().subspan<", a2, ">()");
+        break;
+    case Chain::tail_tail:
+        subject = "span::subspan<Offset>() chained";
+        call    = cat("subspan<", a1, ">().subspan<", a2, ">()");
+        break;
+    case Chain::first_last:
+        subject = "span::first<Count>().last<Count>()";
+        call    = cat("first<", a1, ">().last<", a2, ">()");
+        break;
+    case Chain::last_first:
+        subject = "span::last<Count>().first<Count>()";
+        call    = cat("last<", a1, ">().first<", a2, ">()");
+        break;
+    }
+    k.check(subject, call, o, n, got, Res{static_cast<std::ptrdiff_t>(o), n, ext, true}, stdres);
+    if (same_as_single != -1) { k.c.eq("same view as the single subspan<O1+O2,C2>()", same_as_single, 1); }
+}
+
+template <std::size_t O1, std::size_t C1, std::size_t O2, std::size_t C2, typename ES, typename SS, typename T>
+void chain_one(Case& k, ES const& es, SS const& ss, T const* base)
+{
+    auto const two = es.template subspan<O1, C1>().template subspan<O2, C2>();
+    auto const one = es.template subspan<O1 + O2, C2>();
+    static_assert(std::is_same_v<decltype(two), decltype(one)>);
+    chain_report(k, Chain::sub_sub, O1, C1, O2, C2, O1 + O2, C2, C2, describe(two, base, k.L), describe(ss.template subspan<O1, C1>().template subspan<O2, C2>(), base, k.L),
+        two.data() == one.data() && two.size() == one.size());
+}
+template <std::size_t O1, std::size_t C1, std::size_t O2, typename ES, typename SS, typename T>
+void chain_tail(Case& k, ES const& es, SS const& ss, T const* base)
+{
+    // the second view runs to the end of the first: extent C1 - O2
+    std::size_t const L      = k.L;
+    constexpr std::size_t C2 = C1 - O2;
+    chain_report(k, Chain::sub_tail, O1, C1, O2, 0, O1 + O2, C2, C2, describe(es.template subspan<O1, C1>().template subspan<O2>(), base, L),
+        describe(ss.template subspan<O1, C1>().template subspan<O2>(), base, L), -1);
+    if constexpr (O1 == 0) { // first<C1>().last<C2>() and last<C1>().first<C2>(): every C2 <= C1 <= L once
+        chain_report(k, Chain::first_last, C1, 0, C2, 0, C1 - C2, C2, C2, describe(es.template first<C1>().template last<C2>(), base, L), describe(ss.template first<C1>().template last<C2>(), base, L), -1);
+        chain_report(k, Chain::last_first, C1, 0, C2, 0, L - C1, C2, C2, describe(es.template last<C1>().template first<C2>(), base, L), describe(ss.template last<C1>().template first<C2>(), base, L), -1);
+    }
+}
+template <std::size_t O1, std::size_t C1, std::size_t O2, typename ES, typename SS, typename T, std::size_t... C2s>
+void chain_c2(Case& k, ES const& es, SS const& ss, T const* base, std::index_sequence<C2s...> /*s*/)
+{
+    chain_tail<O1, C1, O2>(k, es, ss, base);
+    (chain_one<O1, C1, O2, C2s>(k, es, ss, base), ...);
+}
+template <std::size_t O1, std::size_t C1, typename ES, typename SS, typename T, std::size_t... O2s>
+void chain_o2(Case& k, ES const& es, SS const& ss, T const* base, std::index_sequence<O2s...> /*s*/)
+{
+    (chain_c2<O1, C1, O2s>(k, es, ss, base, std::make_index_sequence<C1 - O2s + 1>{}), ...);
+}
+template <std::size_t L, std::size_t O1, typename ES, typename SS, typename T, std::size_t... C1s>
+void chain_c1(Case& k, ES const& es, SS const& ss, T const* base, std::index_sequence<C1s...> /*s*/)
+{
+    (chain_o2<O1, C1s>(k, es, ss, base, std::make_index_sequence<C1s + 1>{}), ...);
+    // both counts dynamic_extent: subspan<O1>().subspan<O2>() for O2 <= L - O1
+    [&]<std::size_t... O2s>(std::index_sequence<O2s...>) {
+        (chain_report(k, Chain::tail_tail, O1, 0, O2s, 0, O1 + O2s, L - O1 - O2s, ES::extent == dyn ? dyn : L - O1 - O2s, describe(es.template subspan<O1>().template subspan<O2s>(), base, L),
+             describe(ss.template subspan<O1>().template subspan<O2s>(), base, L), -1),
+            ...);
+    }(std::make_index_sequence<L - O1 + 1>{});
+}
+template <std::size_t L, typename ES, typename SS, typename T, std::size_t... O1s>
+void chain_all(Case& k, ES const& es, SS const& ss, T const* base, std::index_sequence<O1s...> /*s*/)
+{
+    (chain_c1<L, O1s>(k, es, ss, base, std::make_index_sequence<L - O1s + 1>{}), ...);
+}
+
+/// run-time chains: every (o1,c1,o2,c2) with o1+c1 <= L, o2+c2 <= c1; sub-view observers
+template <typename ES, typename SS, typename T>
+void dynamic_chains(Case& k, ES const& es, SS const& ss, T const* base)
+{
+    std::size_t const L = k.L;
+    Ctx& c              = k.c;
+    for (std::size_t o1 = 0; o1 <= L; ++o1) {
+        for (std::size_t c1 = 0; o1 + c1 <= L; ++c1) {
+            auto const v1 = es.subspan(o1, c1);
+            auto const s1 = ss.subspan(o1, c1);
+            for (std::size_t o2 = 0; o2 <= c1; ++o2) {
+                k.check("span::subspan(offset) chained", cat("subspan(", o1, ",", c1, ").subspan(", o2, ")"), o1 + o2, c1 - o2, describe(v1.subspan(o2), base, L),
+                    Res{static_cast<std::ptrdiff_t>(o1 + o2), c1 - o2, dyn, true}, describe(s1.subspan(o2), base, L));
+                for (std::size_t c2 = 0; o2 + c2 <= c1; ++c2) {
+                    k.check("span::subspan(offset,count) chained", cat("subspan(", o1, ",", c1, ").subspan(", o2, ",", c2, ")"), o1 + o2, c2, describe(v1.subspan(o2, c2), base, L),
+                        Res{static_cast<std::ptrdiff_t>(o1 + o2), c2, dyn, true}, describe(s1.subspan(o2, c2), base, L));
+                }
+            }
+            for (std::size_t c2 = 0; c2 <= c1; ++c2) {
+                k.check("span::first(count).last(count)", cat("subspan(", o1, ",", c1, ").first(", c2, ")"), o1, c2, describe(v1.first(c2), base, L), Res{static_cast<std::ptrdiff_t>(o1), c2, dyn, true},
+                    describe(s1.first(c2), base, L));
+                k.check("span::first(count).last(count)", cat("subspan(", o1, ",", c1, ").last(", c2, ")"), o1 + c1 - c2, c2, describe(v1.last(c2), base, L),
+                    Res{static_cast<std::ptrdiff_t>(o1 + c1 - c2), c2, dyn, true}, describe(s1.last(c2), base, L));
+            }
+            // observers of the sub-view: reverse iteration, operator[] at both ends, as_bytes
+            std::string const cls = cat(c1 == 0 ? "empty_subview" : "subview", k.static_src ? "+static_source" : "+dynamic_source");
+            c.at("span observers of a sub-view", cls, cat(k.src, ".subspan(", o1, ",", c1, "): rbegin/rend/operator[]/front/back/size_bytes/as_bytes"));
+            std::size_t i = 0;
+            for (auto it = v1.rbegin(); it != v1.rend(); ++it, ++i) { c.eq("&*rit - base", &*it - base, static_cast<std::ptrdiff_t>(o1 + c1 - 1 - i)); }
+            c.eq("reverse iteration length", i, c1);
+            c.eq("end()-begin()", static_cast<std::size_t>(v1.end() - v1.begin()), c1);
+            if (c1 > 0) {
+                c.eq("&v[0] - base", &v1[0] - base, static_cast<std::ptrdiff_t>(o1));
+                c.eq("&v[size()-1] - base", &v1[v1.size() - 1] - base, static_cast<std::ptrdiff_t>(o1 + c1 - 1));
+                c.eq("&front() - base", &v1.front() - base, static_cast<std::ptrdiff_t>(o1));
+                c.eq("&back() - base", &v1.back() - base, static_cast<std::ptrdiff_t>(o1 + c1 - 1));
+            }
+            c.eq("size_bytes()", v1.size_bytes(), c1 * sizeof(T));
+            auto const b = etl::as_bytes(v1);
+            c.eq("as_bytes: data", static_cast<void const*>(b.data()) == static_cast<void const*>(base + o1), true);
+            c.eq("as_bytes: size", b.size(), c1 * sizeof(T));
+            c.eq("as_bytes: extent", decltype(b)::extent, dyn);
+            if constexpr (!std::is_const_v<typename ES::element_type>) {
+                auto const w = etl::as_writable_bytes(v1);
+                c.eq("as_writable_bytes: data", static_cast<void const*>(w.data()) == static_cast<void const*>(base + o1), true);
+                c.eq("as_writable_bytes: size", w.size(), c1 * sizeof(T));
+            }
+            c.san_check();
+            c.nontrivial += (c1 > 0 && c1 < L);
+        }
+    }
+}
+
+/// default construction, std::array / const etl::array sources, assignment
+template <typename T, std::size_t L>
+void extras(Ctx& c, Block<T>& blk)
+{
+    T* const base = blk.blk.data();
+    std::string const cls = L == 0 ? "source_empty" : "general";
+    if constexpr (L == 0) {
+        c.at("span::span()", "default", cat("span<", tname<T>(), ",0>() and span<", tname<T>(), ">() and span<", tname<T>(), " const>()"));
+        etl::span<T, 0> const z;
+        etl::span<T> const d;
+        etl::span<T const> const cd;
+        c.eq("span<T,0>: data()==nullptr", z.data() == nullptr, true);
+        c.eq("span<T,0>: size()", z.size(), std::size_t(0));
+        c.eq("span<T,0>: empty()", z.empty(), true);
+        c.eq("span<T,0>: begin()==end()", z.begin() == z.end(), true);
+        c.eq("span<T,0>: rbegin()==rend()", z.rbegin() == z.rend(), true);
+        c.eq("span<T,0>: size_bytes()", z.size_bytes(), std::size_t(0));
+        c.eq("span<T,0>: first<0>().size()", z.template first<0>().size(), std::size_t(0));
+        c.eq("span<T,0>: last<0>().size()", z.template last<0>().size(), std::size_t(0));
+        c.eq("span<T,0>: subspan<0,0>().size()", z.template subspan<0, 0>().size(), std::size_t(0));
+        c.eq("span<T,0>: subspan<0>() extent", decltype(z.template subspan<0>())::extent, std::size_t(0));
+        c.eq("span<T,0>: first(0).size()", z.first(0).size(), std::size_t(0));
+        c.eq("span<T,0>: subspan(0).size()", z.subspan(0).size(), std::size_t(0));
+        c.eq("span<T>: data()==nullptr", d.data() == nullptr, true);
+        c.eq("span<T>: size()", d.size(), std::size_t(0));
+        c.eq("span<T>: empty()", d.empty(), true);
+        c.eq("span<T>: begin()==end()", d.begin() == d.end(), true);
+        c.eq("span<T>: rbegin()==rend()", d.rbegin() == d.rend(), true);
+        c.eq("span<T>: size_bytes()", d.size_bytes(), std::size_t(0));
+        c.eq("span<T>: first(0).size()", d.first(0).size(), std::size_t(0));
+        c.eq("span<T>: last(0).size()", d.last(0).size(), std::size_t(0));
+        c.eq("span<T>: subspan(0).size()", d.subspan(0).size(), std::size_t(0));
+        c.eq("span<T>: subspan(0,0).data()==nullptr", d.subspan(0, 0).data() == nullptr, true);
+        c.eq("span<T>: first<0>().size()", d.template first<0>().size(), std::size_t(0));
+        c.eq("span<T>: as_bytes().size()", etl::as_bytes(d).size(), std::size_t(0));
+        c.eq("span<T const>: data()==nullptr", cd.data() == nullptr, true);
+        c.eq("span<T const>: size()", cd.size(), std::size_t(0));
+        c.san_check();
+        ++c.nontrivial;
+    }
+    auto same = [&](char const* subject, std::string const& what, auto const& s, T const* b, std::size_t n, std::size_t ext) {
+        c.at(subject, cls, what);
+        bool content = true;
+        for (std::size_t i = 0; i < s.size() && i < n; ++i) { content = content && (s[i] == b[i]); }
+        c.eq("result", show(Res{s.data() - b, s.size(), std::remove_cvref_t<decltype(s)>::extent, content}), show(Res{0, n, ext, true}));
+        c.san_check();
+    };
+    {
+        std::array<T, L> sa{};
+        for (std::size_t i = 0; i < L; ++i) { sa[i] = make_value<T>(i); }
+        auto const& csa = sa;
+        same("span::span(R&&)", cat("span<", tname<T>(), ">(std::array<", tname<T>(), ",", L, ">&)"), etl::span<T>(sa), sa.data(), L, dyn);
+        same("span::span(R&&)", cat("span<", tname<T>(), ",", L, ">(std::array<", tname<T>(), ",", L, ">&)"), etl::span<T, L>(sa), sa.data(), L, L);
+        same("span::span(R&&)", cat("span<", tname<T>(), " const>(std::array<", tname<T>(), ",", L, "> const&)"), etl::span<T const>(csa), csa.data(), L, dyn);
+        same("span::span(R&&)", cat("span<", tname<T>(), " const,", L, ">(std::array<", tname<T>(), ",", L, "> const&)"), etl::span<T const, L>(csa), csa.data(), L, L);
+        same("span::span(R&&)", cat("span(std::array<", tname<T>(), ",", L, ">&) (deduced)"), etl::span(sa), sa.data(), L, dyn);
+    }
+    {
+        etl::array<T, L> arr{};
+        if constexpr (L > 0) {
+            for (std::size_t i = 0; i < L; ++i) { arr[i] = make_value<T>(i); }
+        }
+        auto const& carr = arr;
+        same("span::span(array<U,N> const&)", cat("span<", tname<T>(), " const,", L, ">(etl::array<", tname<T>(), ",", L, "> const&)"), etl::span<T const, L>(carr), carr.data(), L, L);
+        same("span::span(array<U,N>&)", cat("span<", tname<T>(), " const,", L, ">(etl::array<", tname<T>(), ",", L, ">&)"), etl::span<T const, L>(arr), arr.data(), L, L);
+        same("span::span(array<U,N>&)", cat("span<", tname<T>(), " const>(etl::array<", tname<T>(), ",", L, ">&)"), etl::span<T const>(arr), arr.data(), L, dyn);
+    }
+    {
+        // assignment: dynamic <- dynamic, static <- static, const <- const
+        etl::span<T> a;
+        a = etl::span<T>(base, L);
+        same("span::operator=(span const&)", cat("span<", tname<T>(), "> a; a = span(ptr,", L, ")"), a, base, L, dyn);
+        if constexpr (L > 1) {
+            a = a.subspan(1);
+            same("span::operator=(span const&)", cat("a = a.subspan(1) of ", L, " elements"), a, base + 1, L - 1, dyn);
+            etl::span<T, L - 1> st(base, L - 1);
+            st = etl::span<T, L - 1>(base + 1, L - 1);
+            same("span::operator=(span const&)", cat("span<", tname<T>(), ",", L - 1, "> st(ptr); st = span(ptr+1)"), st, base + 1, L - 1, L - 1);
+        }
+        etl::span<T const> ca;
+        ca = etl::span<T>(base, L); // converting construction, then assignment
+        same("span::operator=(span const&)", cat("span<", tname<T>(), " const> a; a = span<", tname<T>(), ">(ptr,", L, ")"), ca, base, L, dyn);
+    }
+}
+
 template <typename T, std::size_t L>
 void one_length(Ctx& c)
 {
@@ -275,6 +517,8 @@ void one_length(Ctx& c)
             observers(k, es, base);
             dynamic_forms(k, es, ss, base);
             st_all<L>(k, es, ss, base, std::make_index_sequence<L + 1>{});
+            dynamic_chains(k, es, ss, base);
+            if constexpr (L <= chain_max<T> && chain_type<T>) { chain_all<L>(k, es, ss, base, std::make_index_sequence<L + 1>{}); }
         }
         {
             etl::span<T, L> const es(base, L);
@@ -283,6 +527,8 @@ void one_length(Ctx& c)
             observers(k, es, base);
             dynamic_forms(k, es, ss, base);
             st_all<L>(k, es, ss, base, std::make_index_sequence<L + 1>{});
+            dynamic_chains(k, es, ss, base);
+            if constexpr (L <= chain_max<T> && chain_type<T>) { chain_all<L>(k, es, ss, base, std::make_index_sequence<L + 1>{}); }
         }
         {
             etl::span<T const> const es(base, L);
@@ -290,8 +536,10 @@ void one_length(Ctx& c)
             Case k{c, cat("span<", tname<T>(), " const> of size ", L), L, false};
             observers(k, es, static_cast<T const*>(base));
             dynamic_forms(k, es, ss, static_cast<T const*>(base));
+            dynamic_chains(k, es, ss, static_cast<T const*>(base));
         }
         constructors<T, L>(c, blk);
+        extras<T, L>(c, blk);
     });
     c.trap(t);
     if (!blk.blk.intact()) { c.c02("wrote outside the block"); }
